@@ -575,6 +575,92 @@ fn lattice(o: &mut Out) {
     println!("HASH lattice-coverage {hash:016x}");
 }
 
+/// C05's consequence in this configuration: fragments of tiny, thin and ordinary triangles sit at their pixel centre and
+/// carry the plane's depth and attribute (the scan converter uses this backend's floor, and ApproxEq's epsilon differs
+/// between builds with and without std/libm).
+fn fragments(o: &mut Out, seed: u64) {
+    use re::geom::vertex;
+    use re::math::pt3;
+    use re::render::raster::tri_fill;
+    let mut s = seed ^ 0xf4a9;
+    let mut checked = 0u64;
+    for i in 0..120_000u32 {
+        let cx = (splitmix(&mut s) % 40) as f64 + 0.5;
+        let cy = (splitmix(&mut s) % 40) as f64 + 0.5;
+        let r = |s: &mut u64, a: f64| (unit(s) * 2.0 - 1.0) * a;
+        let v: [[f32; 2]; 3] = match i % 4 {
+            // tiny triangle around a pixel centre
+            0 => {
+                let e = 10f64.powf(-4.0 + 2.5 * unit(&mut s));
+                [[(cx - e) as f32, (cy - e * 0.7) as f32], [(cx + e * 1.1) as f32, (cy - e * 0.6) as f32], [(cx + r(&mut s, e * 0.3)) as f32, (cy + e) as f32]]
+            }
+            // thin tall sliver over a column of centres
+            1 => {
+                let e = 10f64.powf(-4.0 + 2.5 * unit(&mut s));
+                let h = 3.0 + unit(&mut s) * 20.0;
+                [[(cx - e) as f32, (cy - 0.3) as f32], [(cx + e) as f32, (cy - 0.3) as f32], [(cx + r(&mut s, e)) as f32, (cy + h) as f32]]
+            }
+            _ => [[(cx + r(&mut s, 20.0)).abs() as f32, (cy + r(&mut s, 20.0)).abs() as f32], [(cx + r(&mut s, 20.0)).abs() as f32, (cy + r(&mut s, 20.0)).abs() as f32], [(cx + r(&mut s, 20.0)).abs() as f32, (cy + r(&mut s, 20.0)).abs() as f32]],
+        };
+        let z: [f32; 3] = [0.2 + unit(&mut s) as f32 * 0.8, 0.2 + unit(&mut s) as f32 * 0.8, 0.2 + unit(&mut s) as f32 * 0.8];
+        let a: [f32; 3] = [unit(&mut s) as f32 * 2.0 - 1.0, unit(&mut s) as f32 * 2.0 - 1.0, unit(&mut s) as f32 * 2.0 - 1.0];
+        let t: [[f64; 2]; 3] = v.map(|p| [p[0] as f64, p[1] as f64]);
+        let area2 = (t[1][0] - t[0][0]) * (t[2][1] - t[0][1]) - (t[1][1] - t[0][1]) * (t[2][0] - t[0][0]);
+        if area2.abs() * 0.5 <= 1e-6 {
+            continue;
+        }
+        let lmax = (0..3).map(|k| ((t[k][0] - t[(k + 1) % 3][0]).powi(2) + (t[k][1] - t[(k + 1) % 3][1]).powi(2)).sqrt()).fold(0.0f64, f64::max);
+        let alt = area2.abs() / lmax;
+        let maxc = t.iter().flatten().fold(0.0f64, |m, c| m.max(*c));
+        let (zmin, zmax) = (z.iter().cloned().fold(f32::MAX, f32::min) as f64, z.iter().cloned().fold(f32::MIN, f32::max) as f64);
+        let extra = 2.0 * (5e-7 * maxc.max(1.0)) * (zmax / zmin) / alt;
+        if extra > 0.5 {
+            continue;
+        }
+        let verts = [0, 1, 2].map(|k| vertex(pt3(v[k][0], v[k][1], z[k]), a[k] * z[k]));
+        let r = catch(|| {
+            let mut frags: Vec<(usize, usize, [f32; 3], f32)> = vec![];
+            tri_fill(verts, |mut sl| {
+                let (y, x0) = (sl.y, sl.xs.start);
+                for (j, f) in sl.fragments().take(4096).enumerate() {
+                    frags.push((x0 + j, y, f.pos.0, f.var));
+                }
+            });
+            frags
+        });
+        let frags = match r {
+            Ok(f) => f,
+            Err(p) => {
+                o.fail("fragments-panic", "tri_fill", &[i], p);
+                continue;
+            }
+        };
+        o.evals += 1;
+        for (x, y, pos, var) in frags {
+            checked += 1;
+            let c = [x as f64 + 0.5, y as f64 + 0.5];
+            let l0 = ((t[1][0] - c[0]) * (t[2][1] - c[1]) - (t[1][1] - c[1]) * (t[2][0] - c[0])) / area2;
+            let l1 = ((t[2][0] - c[0]) * (t[0][1] - c[1]) - (t[2][1] - c[1]) * (t[0][0] - c[0])) / area2;
+            let l2 = 1.0 - l0 - l1;
+            let pz = l0 * z[0] as f64 + l1 * z[1] as f64 + l2 * z[2] as f64;
+            let paz = l0 * (a[0] * z[0]) as f64 + l1 * (a[1] * z[1]) as f64 + l2 * (a[2] * z[2]) as f64;
+            let want = paz / pz;
+            let (lo, hi) = (a.iter().cloned().fold(f32::MAX, f32::min) as f64, a.iter().cloned().fold(f32::MIN, f32::max) as f64);
+            let tol = (0.005 + extra) * (hi - lo) + 2e-4;
+            let bits = [v[0][0].to_bits(), v[0][1].to_bits(), v[1][0].to_bits(), v[1][1].to_bits(), v[2][0].to_bits(), v[2][1].to_bits()];
+            if !pos.iter().all(|p| p.is_finite()) || !var.is_finite() {
+                o.fail("fragment-not-finite", "tri_fill", &bits, format!("{CFG}: fragment ({x},{y}) of triangle {v:?} is not finite"));
+            } else if (pos[0] as f64 - c[0]).abs() > 2e-3 || (pos[1] as f64 - c[1]).abs() > 2e-3 {
+                o.fail("fragment-not-at-centre", "tri_fill", &bits, format!("{CFG}: fragment for pixel ({x},{y}) of triangle {v:?} sits at ({}, {})", pos[0], pos[1]));
+            } else if (var as f64 - want).abs() > tol {
+                o.fail("fragment-attribute", "tri_fill", &bits, format!("{CFG}: pixel ({x},{y}) of triangle {v:?} carries attribute {var}, the plane gives {want:.6} (tolerance {tol:.2e})"));
+            }
+            o.max("fragment-attribute-error/tolerance", (var as f64 - want).abs() / tol, 1.0, "of-tolerance");
+        }
+    }
+    o.count("fragments:checked", checked);
+}
+
 /// SamplerRepeatPot must address the texel at floor(coordinate) mod size.
 fn sampler(o: &mut Out, seed: u64) {
     use re::render::tex::{uv, SamplerRepeatPot, Texture};
@@ -736,6 +822,7 @@ fn main() {
     approx_sweeps(&mut o, thorough, seed);
     recip_sqrt_sweep(&mut o, thorough);
     lattice(&mut o);
+    fragments(&mut o, seed);
     sampler(&mut o, seed);
     normalize(&mut o, seed);
     wrap(&mut o, seed);
